@@ -127,3 +127,5 @@ reg('C14', 'caches', 'rule_memo_reset')
 reg('C12', 'streams', 'rule_enc_first_mapped')
 reg('C18', 'streams', 'rule_lockscope')
 reg('C15', 'jsonmap', 'rule_json_sibling')
+reg('C14', 'eqhash', 'rule_eq_allpaths')
+reg('C20', 'eqhash', 'rule_eq_allpaths')
